@@ -400,6 +400,13 @@ def run(ctx) -> None:
     from .c15 import r15_2 as _r15_2
     ctx.guard_as("R07.14", _r15_2, "jws")  # RFC 7797 tokens of another implementation: "b64" needs to be IN crit, crit may list more
     from .c11 import r11_9 as _r11_9
+    # "yield the same header and payload": key resolution on the verifying side never writes a kid into the received header (use_random=False there)
+    from .c14 import r14_2 as _r14_2
+    from .common import JWS_CONSUME as _JC7, entries as _entries7, scope_of as _scope_of7
+    _within7 = set()
+    for _e7 in _entries7(ctx.eng, _JC7 + [("jws", "validate_compact")]):
+        _within7.update(_scope_of7(ctx.eng, _e7))
+    ctx.guard_as("R07.19", _r14_2, within=_within7)
     ctx.guard_as("R07.17", _r11_9)  # "given only the exported public JWK": a published key with `use: sig, key_ops: [verify]` is importable
     from .common import member_crossing
     ctx.guard(member_crossing, "R07.15", "jws")  # "yield the same payload and header": each named member of a parsed token is filled from the member of that name, under a test of its own presence
